@@ -287,17 +287,21 @@ def _check_signals(prog: Program, run: Run) -> None:
                     nm = ast.unparse(n).split(".")[-1]
                     if nm in exc_classes:
                         caught_exact.setdefault(nm, []).append(f"{f.module.rel}:{f.qual}")
-    # a "signal" is a class that is caught somewhere and has a strict super class which is
-    # an OdxError as well and is *also* used for ordinary error reports (DecodeMismatch <: DecodeError)
+    # a "signal" is a specialised error class: it derives from another error class of the
+    # library that is itself caught by the candidate loops (DecodeMismatch <: DecodeError)
     signals = set()
-    for nm in caught_exact:
+    for nm in exc_classes:
         ci = prog.cls(nm)
-        supers = [c.name for c in prog.mro(ci)[1:] if c.name in exc_classes and c.name != "OdxError"]
-        if supers:
+        supers = [c.name for c in prog.mro(ci)[1:] if c.name in exc_classes and
+                  c.name != "OdxError"]
+        if supers and any(sup in caught_exact for sup in supers):
             signals.add(nm)
+            caught_exact.setdefault(nm, [])
+            for sup in supers:
+                caught_exact[nm] += caught_exact.get(sup, [])
     if "DecodeMismatch" not in signals:
-        raise AnalysisError("DecodeMismatch is no longer caught as a dispatch signal; C17.R5 has "
-                            "lost its anchor")
+        raise AnalysisError("DecodeMismatch is no longer a specialisation of a caught error "
+                            "class; C17.R5 has lost its anchor")
     n = 0
     for f in prog.iter_functions():
         for x in walk_no_nested(f.node):
